@@ -151,6 +151,8 @@ func runC13(r *core.Run) {
 	c13Transpose(r)
 	c13RepeatConcat(r)
 	c13Reshape(r)
+	c13ReshapeVG(r)
+	c13ReshapeTT(r)
 	c13Invariant(r)
 }
 
@@ -534,6 +536,194 @@ func c13Reshape(r *core.Run) {
 	}
 }
 
+// c13ReshapeVG: Reshape "after slicing/transposing" from NON-INITIAL states - every row-major view-graph state reached in
+// two or three steps (slices and lazy transposes in any order) is flattened and reshaped to its reversed shape. Either the
+// call refuses (allowed for views that need an iterator) or the flat logical sequence is preserved.
+func c13ReshapeVG(r *core.Run) {
+	d := ref.Float64
+	shapes := [][]int{{2, 3}, {3, 2}, {2, 2, 2}, {2, 3, 2}}
+	depth := 3
+	if !isQuick(r) {
+		shapes = append(shapes, []int{2, 3, 4}, []int{3, 3}, []int{2, 2, 2, 2})
+	}
+	r.SetBound("reshape_view_graph", fmt.Sprintf("shapes %v x every view-graph state of depth 2..%d x {flatten, reversed shape}", shapes, depth))
+	for _, shape := range shapes {
+		dep := depth
+		if ref.Prod(shape) > 12 {
+			dep = 2
+		}
+		paths := atlas.ViewStates(shape, false, dep, true)
+		for _, path := range paths {
+			if len(path) < 2 {
+				continue
+			}
+			if !r.Take() {
+				continue
+			}
+			if r.Expired() {
+				return
+			}
+			path := path
+			id := fmt.Sprintf("C13|ReshapeVG|%s|%s", shapeStr(shape), atlas.PathString(path))
+			if r.ReplayCase != "" && id != r.ReplayCase {
+				continue
+			}
+			mk := func() (*atlas.Built, []interface{}) {
+				tensor.VerifResetPools()
+				b, _ := atlas.Replay(d, shape, false, path)
+				if b == nil {
+					return nil, nil
+				}
+				d.FillCodes(b.Root, 1)
+				if cells, ok := b.APCells(); !ok || !ref.EqInts(cells, b.View.Cell) {
+					return nil, nil
+				}
+				seq := make([]interface{}, len(b.View.Cell))
+				for i, c := range b.View.Cell {
+					seq[i] = ref.SliceGet(b.Root, c)
+				}
+				return b, seq
+			}
+			b0, seq0 := mk()
+			if b0 == nil || len(seq0) < 2 {
+				r.Dim("skipped", "reshape-vg")
+				continue
+			}
+			r.State(atlas.StateKey(b0.T, atlas.RootPtr(b0.Root)))
+			r.Case(id, true, func() *core.Fail {
+				var fails []string
+				kinds := map[string]bool{}
+				n := len(seq0)
+				rs := make([]int, len(b0.View.Shape))
+				for i := range rs {
+					rs[i] = b0.View.Shape[len(rs)-1-i]
+				}
+				for _, tg := range [][]int{{n}, rs} {
+					b, seq := mk()
+					snapRoot := b.Snapshot()
+					o := call(func() error { return b.T.Reshape(ref.CopyInts(tg)...) })
+					r.Op(1)
+					r.Outcome("ReshapeVG:" + o.Class)
+					if o.Class != "ok" {
+						_ = snapRoot
+						continue // a refusal is always allowed here (views), what must not happen is a changed sequence
+					}
+					got, err := atlas.Logical(b.T)
+					if err != nil || len(got) != n {
+						kinds["wrong-value"] = true
+						fails = append(fails, fmt.Sprintf("after reshape -> %v unreadable: %v", tg, err))
+						continue
+					}
+					for i := range got {
+						if !ref.Same(got[i], seq[i]) {
+							kinds["wrong-value"] = true
+							fails = append(fails, fmt.Sprintf("reshape of view state %s (shape %v) -> %v: flat element %d is %s, expected %s: the elements changed", atlas.PathString(path), b0.View.Shape, tg, i, ref.Fmt(got[i]), ref.Fmt(seq[i])))
+							break
+						}
+					}
+				}
+				return c13Join(kinds, fails)
+			})
+		}
+	}
+}
+
+// c13ReshapeTT: two lazy transposes by ARBITRARY permutations (the second materialises the first and stays pending itself),
+// then a range on the leading axis only, then Reshape - judged on values (the data has moved, so the cell model of the
+// view graph does not apply): refusal, or the flat logical sequence of the view.
+func c13ReshapeTT(r *core.Run) {
+	d := ref.Float64
+	shapes := [][]int{{2, 3, 2}, {2, 3, 4}}
+	if !isQuick(r) {
+		shapes = append(shapes, []int{3, 2, 2}, []int{2, 2, 3}, []int{3, 3, 3})
+	}
+	for _, shape := range shapes {
+		n := ref.Prod(shape)
+		for _, p := range ref.Perms(3) {
+			for _, q := range ref.Perms(3) {
+				if isIdentity(p) || isIdentity(q) || !r.Take() {
+					continue
+				}
+				p, q := p, q
+				id := fmt.Sprintf("C13|ReshapeTT|%s|T%v.T%v", shapeStr(shape), p, q)
+				if r.ReplayCase != "" && id != r.ReplayCase {
+					continue
+				}
+				r.Case(id, true, func() *core.Fail {
+					var fails []string
+					kinds := map[string]bool{}
+					vals := make([]interface{}, n)
+					for i := range vals {
+						vals[i] = d.Code(i + 1)
+					}
+					model := ref.Arr{DT: d, Shape: ref.CopyInts(shape), El: vals}.Permute(p).Permute(q)
+					rows := model.Shape[0]
+					rowLen := n / rows
+					for _, rg := range [][2]int{{1, rows}, {0, rows - 1}} {
+						if rg[1]-rg[0] < 1 || rows < 2 {
+							continue
+						}
+						tensor.VerifResetPools()
+						a := mkContig(d, shape, vals)
+						var v tensor.View
+						o := call(func() (e error) {
+							if e = a.T(ref.CopyInts(p)...); e != nil {
+								return
+							}
+							if e = a.T(ref.CopyInts(q)...); e != nil {
+								return
+							}
+							v, e = a.Slice(tensor.S(rg[0], rg[1]))
+							return
+						})
+						r.Op(3)
+						if o.Class != "ok" {
+							continue
+						}
+						dv := v.(*tensor.Dense)
+						want := model.El[rg[0]*rowLen : rg[1]*rowLen]
+						if got, err := atlas.Logical(dv); err != nil || len(got) != len(want) {
+							if err != nil && strings.Contains(err.Error(), "invariant") {
+								kinds["invariant-violated"] = true
+								fails = append(fails, fmt.Sprintf("T%v.T%v.S[%d:%d] of %v: %v", p, q, rg[0], rg[1], shape, err))
+							}
+							continue // what the view reads is otherwise C02/C03's subject
+						} else {
+							okv := true
+							for i := range got {
+								okv = okv && ref.Same(got[i], want[i])
+							}
+							if !okv {
+								continue
+							}
+						}
+						o = call(func() error { return dv.Reshape(len(want)) })
+						r.Op(1)
+						r.Outcome("ReshapeTT:" + o.Class)
+						if o.Class != "ok" {
+							continue
+						}
+						got, err := atlas.Logical(dv)
+						if err != nil || len(got) != len(want) {
+							kinds["wrong-value"] = true
+							fails = append(fails, fmt.Sprintf("T%v.T%v.S[%d:%d] of %v then Reshape(%d): unreadable (%v)", p, q, rg[0], rg[1], shape, len(want), err))
+							continue
+						}
+						for i := range got {
+							if !ref.Same(got[i], want[i]) {
+								kinds["wrong-value"] = true
+								fails = append(fails, fmt.Sprintf("T%v.T%v.S[%d:%d] of %v then Reshape(%d): flat element %d is %s, expected %s - Reshape changed the elements (got %s want %s)", p, q, rg[0], rg[1], shape, len(want), i, ref.Fmt(got[i]), ref.Fmt(want[i]), ref.FmtEls(got), ref.FmtEls(want)))
+								break
+							}
+						}
+					}
+					return c13Join(kinds, fails)
+				})
+			}
+		}
+	}
+}
+
 // c13Invariant evaluates the metadata invariant on every tensor produced by a sweep of the operation families.
 func c13Invariant(r *core.Run) {
 	shapes := ref.DedupShapes(append(ref.ShapesUpTo(0, 3, 3), [][]int{{2, 2, 2, 2}, {2, 1, 2, 3}, {5}, {1, 4}, {4, 1}}...))
@@ -567,7 +757,11 @@ func c13Invariant(r *core.Run) {
 						}
 						r.Op(1)
 						r.State(d.Name + "|" + atlas.StateKey(dt, 0))
-						if msg := metaInvariant(dt); msg != "" {
+						msg := metaInvariant(dt)
+						if msg == "" {
+							msg = orderInvariant(dt)
+						}
+						if msg != "" {
 							kinds["invariant-violated"] = true
 							if len(fails) < 8 {
 								fails = append(fails, what+": "+msg)
